@@ -108,32 +108,35 @@ func zzBytesEq(a, b []byte) bool {
 }
 
 func zzAlphabet(in []byte, cfg zzCfg, wide bool) {
+	set := "~*A\n"
+	if cfg.comp {
+		set += ":"
+	}
+	if cfg.rep {
+		set += "^"
+	}
+	if cfg.rel {
+		set += "?"
+	}
+	if wide {
+		// one 2-byte rune (é = C3 A9); validity of the whole string is assumed below
+		set += "\xC3\xA9"
+	}
 	for i := 0; i < len(in); i++ {
-		b := in[i]
-		ok := b == '~' || b == '*' || b == 'A' || b == '\n'
-		if cfg.comp {
-			ok = ok || b == ':'
-		}
-		if cfg.rep {
-			ok = ok || b == '^'
-		}
-		if cfg.rel {
-			ok = ok || b == '?'
-		}
-		if wide {
-			// one 2-byte rune (é = C3 A9); validity of the whole string is assumed below
-			ok = ok || b == 0xC3 || b == 0xA9
-		}
-		zz.Assume(ok)
+		zz.Assume(zz.ByteIn(in[i], set))
 	}
 	if wide {
 		// valid UTF-8: C3 always followed by A9, A9 always preceded by C3
 		for i := 0; i < len(in); i++ {
-			if in[i] == 0xC3 {
-				zz.Assume(i+1 < len(in) && in[i+1] == 0xA9)
+			if i+1 < len(in) {
+				zz.Assume(zz.Implies(in[i] == 0xC3, in[i+1] == 0xA9))
+			} else {
+				zz.Assume(in[i] != 0xC3)
 			}
-			if in[i] == 0xA9 {
-				zz.Assume(i > 0 && in[i-1] == 0xC3)
+			if i > 0 {
+				zz.Assume(zz.Implies(in[i] == 0xA9, in[i-1] == 0xC3))
+			} else {
+				zz.Assume(in[i] != 0xA9)
 			}
 		}
 	}
@@ -223,7 +226,7 @@ func C07Roundtrip() {
 			v := zz.NondetBytes("v", budget)
 			budget -= len(v)
 			for _, b := range v {
-				zz.Assume(b == '~' || b == '*' || b == ':' || b == '^' || b == '?' || b == 'A')
+				zz.Assume(zz.ByteIn(b, "~*:^?A"))
 			}
 			vals[e][c] = v
 			if c > 0 {
@@ -315,7 +318,11 @@ func C09EdiScan() {
 	in := zz.NondetBytesN("in", zz.NondetChoice("len", L)+1)
 	crlf := zz.NondetBool("ignore_crlf")
 	for _, b := range in {
-		zz.Assume(b == '~' || b == 'A' || b == '?' || b == '\n' || (crlf && b == '\r'))
+		if crlf {
+			zz.Assume(zz.ByteIn(b, "~A?\n\r"))
+		} else {
+			zz.Assume(zz.ByteIn(b, "~A?\n"))
+		}
 	}
 	decl := cfg.decl()
 	decl.IgnoreCRLF = crlf
@@ -338,7 +345,7 @@ func C16Edi() {
 	L := zz.Param("L", 4)
 	in := zz.NondetBytesN("in", zz.NondetChoice("len", L)+1)
 	for _, b := range in {
-		zz.Assume(b == '~' || b == '*' || b == 'S' || b == '1')
+		zz.Assume(zz.ByteIn(b, "~*S1"))
 	}
 	decl := &FileDecl{SegDelim: "~", ElemDelim: "*",
 		SegDecls: []*SegDecl{{Name: "S", IsTarget: true, Min: zzIntPtr(0), Max: zzIntPtr(-1)}}}
